@@ -5,6 +5,7 @@
 id=$1; wt=/tmp/wt/$id
 cd $wt || exit 2
 git checkout -q -- src include 2>/dev/null
+git checkout -q --detach $(git -C /repo rev-parse HEAD) 2>/dev/null
 git apply demo/patch.diff || { echo '{"error":"patch does not apply"}'; exit 2; }
 cmake -G Ninja -B _build -DCMAKE_BUILD_TYPE=RelWithDebInfo >/dev/null 2>&1
 cmake --build _build -j16 >/dev/null 2>&1 || { echo '{"error":"build failed with patch"}'; exit 2; }
